@@ -2,7 +2,7 @@
 The finite pigeonhole principle in the index-range form used by the family corollaries,
 and the truth assignment that realises a given relation on a mapping group.
 -/
-import Lemmas.FamMap
+import Lemmas.C01Map
 import Mathlib.Data.Fintype.Pigeonhole
 namespace Cnfgen.Fam
 open Cnfgen
